@@ -1,4 +1,6 @@
 // stop_immediately: next-operation start() touches the operation after the stop callback may have completed it.
+// (REPAIRED in /repo: start() now takes `stream& strm = stream_;` before registering the callback; with the repair this
+// program is ASan-clean.  Finding id C13-stop-immediately-start-reads-op-after-callback.)
 //
 //   start():  stop_requested()? no -> nextOp_.construct_with(connect(next(source_), ...))   <- stop arrives here
 //             nextReceiver_ = ...; state_ = source_next_active;
